@@ -115,6 +115,9 @@ class Interp:
                 return obj
             return fn(*args, **kwargs)
         if isinstance(fn, types.MethodType):
+            if self._subst and id(fn.__func__) in self._subst:
+                # stubbed classmethod / method: the replacement is called without the bound object
+                return self._subst[id(fn.__func__)](*args, **kwargs)
             if self.is_target(fn.__func__):
                 return self.run_function(fn.__func__, (fn.__self__,) + tuple(args), kwargs)
             return fn(*args, **kwargs)
